@@ -31,6 +31,10 @@ CONSTANT DEV_ReprEmptyListDropsLen
 CONSTANT DEV_ContainsFallsThrough
 \* Substitutor.visit_any may return an any with no alternatives (C12, C04)
 CONSTANT DEV_AnyLeftEmpty
+\* Substitutor.visit_dict stores `...` as the value schema of a key an undeclared dict is given (C12)
+CONSTANT DEV_PlaceholderUnderUndeclaredKey
+\* Substitutor.visit_list keeps `...` between two members of a value given to an undeclared list (C12)
+CONSTANT DEV_PlaceholderBetweenElements
 \* Props.__eq__ compares prop values with != which reaches schema-vs-value (C15)
 CONSTANT DEV_PropsEqSchemaVsValue
 
